@@ -161,11 +161,15 @@ class Gen:
         return {"*": [p, C(r.choice([Fr(1, 2), Fr(2), Fr(3, 2)]))]}
 
     def time_points(self):
+        """candidate breakpoints / knots: half-grid and quarter-grid points, never an output time itself
+        (a switch exactly at an output time is the recorded known finding C10/euler: jnp.linspace differs
+        from model.times in the last bit there; rk4's stage times t+h/2 do hit these points)"""
         pts = []
         h = self.dt
         n = self.nsteps
-        for i in range(-1, 2 * n + 3):
-            pts.append(self.t0 + Fr(i, 2) * h)
+        for i in range(-3, 4 * n + 6):
+            if i % 4 != 0:
+                pts.append(self.t0 + Fr(i, 4) * h)
         return pts
 
     # ------------------------------------------------------------------ abstract structure
